@@ -276,7 +276,7 @@ fn check_header_bytes(b: &[u8]) -> Option<(String, String)> {
 pub fn run(tier: &str) -> i32 {
     let rep = Report::new("C12", tier, "exploration");
     let thorough = rep.thorough();
-    rep.rule("both API twins on ready-immediately streams over the inputs of C01 (all small maps, metadata/settings alphabets), C03 (foreign product), C05 (all lists of <= 2 entries), C06 (crossing sweep) and C09 (stored-value sweep, enum/version/magic/truncation cases), plus the rejection inputs of C19; readers: equal values (model view + hook snapshot, directories, headers field-wise, maps) or errors on both sides; writers: outputs read back to equal content by both readers and byte-identical for Compression::None, and the async writer's bytes unchanged over a sink that is Pending once per call and takes 7 / 1000 bytes per write; full and four range-filtered opens, and opens of a stream handed over at position 1 / 127 / its end; non-trivial = inputs with >= 1 tile/entry");
+    rep.rule("both API twins on ready-immediately streams over the inputs of C01 (all small maps, metadata/settings alphabets), C03 (foreign product), C05 (all lists of <= 2 entries), C06 (crossing sweep; util::write_directories(_async) with initial leaf size default / 4096 / 1000 / 7) and C09 (stored-value sweep, enum/version/magic/truncation cases), plus the rejection inputs of C19; readers: equal values (model view + hook snapshot, directories, headers field-wise, maps) or errors on both sides; writers: outputs read back to equal content by both readers and byte-identical for Compression::None, and the async writer's bytes unchanged over a sink that is Pending once per call and takes 7 / 1000 bytes per write; full and four range-filtered opens, and opens of a stream handed over at position 1 / 127 / its end; non-trivial = inputs with >= 1 tile/entry");
     // (a) logical archives
     let mut items: Vec<Logical> = Vec::new();
     for c in COMPS {
@@ -552,7 +552,15 @@ pub fn run(tier: &str) -> i32 {
             }
             let nstar = crossing(fam, c, &window_entries);
             for n in (nstar.saturating_sub(12)..=nstar + 24).step_by(if thorough { 1 } else { 3 }) {
-                jobs.push((fam, n, c, if n % 2 == 0 { LeafSize::Default } else { LeafSize::Size(4096) }));
+                // initial leaf sizes: the default, a power of two, and two that are not powers of two (round 8: an async twin
+                // that rounds the caller's leaf size up to a power of two is invisible with 4096 alone)
+                let ls = match n % 4 {
+                    0 => LeafSize::Default,
+                    1 => LeafSize::Size(4096),
+                    2 => LeafSize::Size(1000),
+                    _ => LeafSize::Size(7),
+                };
+                jobs.push((fam, n, c, ls));
             }
         }
     }
